@@ -8,6 +8,7 @@ import (
 
 	_ "verif/checks/c01"
 	_ "verif/checks/c02"
+	_ "verif/checks/c04"
 	_ "verif/checks/c06"
 	_ "verif/checks/c19"
 )
